@@ -221,3 +221,19 @@ pub fn oddify(s: &str, salt: u64) -> String {
     }
     out
 }
+
+/// like `oddify` but WITHOUT changing letter case: equal tokens keep equal bytes (for checks that
+/// compare reconstructed texts byte for byte)
+pub fn oddify_same_case(s: &str) -> String {
+    let mut out = String::with_capacity(s.len() + 8);
+    let mut prev = '\0';
+    for c in s.chars() {
+        if c == '\n' && prev != '\r' && (prev.to_ascii_lowercase() as u32) % 2 == 0 {
+            out.push('\u{2028}');
+        } else {
+            out.push(c);
+        }
+        prev = c;
+    }
+    out
+}
